@@ -7,6 +7,9 @@ fn main() {
         "C01" | "C02" | "C03" | "C06" | "C07" | "C08" => e1::run(&args),
         "C31" => e5::c31(&args),
         "C28" => e5::c28(&args),
+        "C11" => e2_store::c11(&args),
+        "C12" => e2_store::c12(&args),
+        "C14" => e2_store::c14(&args),
         other => {
             eprintln!("no check for {other}");
             2
